@@ -23,7 +23,7 @@ def run(chk):
                        'Environment, against a scan of the stored objects; creator_of.')
     for c in (K.composite_get_contract(), K.deduplicate_contract(), KF.acf_contract()):
         chk.prove(c); chk.canary(c)
-    for m in ('all_versions', 'query'):          # federation: every member is asked, with the composite's filters and those handed down; the answer is the union
+    for m in ('all_versions', 'query', 'get'):          # federation: every member is asked, with the composite's filters and those handed down; the answer is the union
         c = K.composite_federation_contract(m); chk.prove(c); chk.canary(c)
     for v in ('object', 'id'):          # navigation on top of query: relationships() == the scan, given the contract of query()
         c = K.relationships_contract(v); chk.prove(c); chk.canary(c)
